@@ -63,6 +63,8 @@ func retValues(ret string) (reflect.Type, reflect.Value, error) {
 		return reflect.TypeOf(int64(0)), reflect.ValueOf(int64(9007199254740993)), nil
 	case "float32":
 		return reflect.TypeOf(float32(0)), reflect.ValueOf(float32(2.5)), nil
+	case "float32b":
+		return reflect.TypeOf(float32(0)), reflect.ValueOf(float32(0.1)), nil
 	case "float64":
 		return reflect.TypeOf(float64(0)), reflect.ValueOf(float64(0.1)), nil
 	case "string":
